@@ -98,6 +98,11 @@ CHECKS.update({
    design_ref="DESIGN.md section 4 C17",
    category="exploration",
    note="Byte-level mutants and random bytes are sampled with VERIF_SEED (not enumerated); the memory bound is judged on runtime.MemStats counters. Trusted: the harness token encoder, harness projection, TLC."),
+ "C18": dict(
+   technique="TLA+ reference for a fixed family of Go types (implied type, Go->cty, number representability per Go kind by landmark order); TLC-enumerated numbers x Go numeric kinds, abstract Go values and cty values x Go target types replayed through real gocty with reflect-built values; TLC trace validation",
+   text="Bounded-exhaustive over the family: every boundary number of every integer width (+-1, +1/2), float32/float64 limits and beyond, huge and infinite numbers x all 12 Go numeric kinds must decode exactly when representable and then store that number; every generated abstract Go value (nil/empty slices, maps, pointers, nested, tagged struct with pointer field, embedded cty.Value) must have the reference implied type, convert to the reference cty value and come back identical; every generated cty value x 19 Go target types must be refused when unknown, null-into-non-nilable or of the wrong shape, without panicking.",
+   design_ref="DESIGN.md section 4 C18",
+   note="Rounding of numbers that are not exactly representable in the float target is not judged; one known-finding class (non-NFC Go strings) is listed in KNOWN_FINDINGS.txt. Trusted: reflect-based construction/projection of Go values in the harness, TLC."),
 })
 
 NOT_APPLICABLE = {}
